@@ -1418,14 +1418,155 @@ Proof.
   apply (members_fit_list w p f j Hp). apply M. unfold fitcont. now rewrite G.
 Qed.
 
+(* ------------------------------------------------------------------ *)
+(* the item list of a fit: duplicate-free; unloaded when the fit has no solar system *)
+
+Definition places (f : nat) : list place :=
+  [PSlot f SlCharacter; PSlot f SlShip; PSlot f SlStance; PSlot f SlBeacon;
+   PSet f SeSkills; PSet f SeImplants; PSet f SeBoosters; PSet f SeSubsystems;
+   PRack f RHigh; PRack f RMid; PRack f RLow; PSet f SeRigs; PSet f SeDrones; PSet f SeFighters].
+Lemma top_places ft f : fit_top_items ft = flat_map (cmem ft) (places f).
+Proof. unfold fit_top_items, places. cbn [flat_map cmem fit_slot fit_setc fit_rack]. now rewrite app_nil_r. Qed.
+Lemma places_nodup f : NoDup (places f).
+Proof. unfold places. repeat (constructor; [cbn; intuition discriminate|]). constructor. Qed.
+Lemma places_pfit f p : In p (places f) -> pfit p = Some f.
+Proof. unfold places. cbn. intuition (subst; reflexivity). Qed.
+
+Lemma NoDup_app_intro {A} (a b : list A) :
+  NoDup a -> NoDup b -> (forall x, In x a -> In x b -> False) -> NoDup (a ++ b).
+Proof.
+  induction a as [|x a IH]; cbn; intros Ha Hb Hd; [exact Hb|].
+  inversion Ha as [|? ? Nx Ha']; subst. constructor.
+  - rewrite in_app_iff. intros [I|I]; [contradiction|]. apply (Hd x); [now left|exact I].
+  - apply IH; [exact Ha'|exact Hb|]. intros y Iy. apply Hd. now right.
+Qed.
+Lemma NoDup_flat_map_disjoint {A B} (g : A -> list B) (l : list A) :
+  NoDup l -> (forall x, In x l -> NoDup (g x)) ->
+  (forall x y z, In x l -> In y l -> x <> y -> In z (g x) -> In z (g y) -> False) ->
+  NoDup (flat_map g l).
+Proof.
+  induction l as [|a l IH]; cbn; intros Hn Hg Hd; [constructor|].
+  inversion Hn as [|? ? Na Hn']; subst. apply NoDup_app_intro.
+  - apply Hg. now left.
+  - apply IH; [exact Hn'|intros x I; apply Hg; now right|]. intros x y z Ix Iy. apply Hd; now right.
+  - intros z Iz I. apply in_flat_map in I as (y & Iy & Izy).
+    apply (Hd a y z); [now left|now right|intros ->; contradiction|exact Iz|exact Izy].
+Qed.
+
+Lemma top_items_nodup w f ft : CI w -> get_fit w f = Some ft -> NoDup (fit_top_items ft).
+Proof.
+  intros (_ & M & ND) Gf. rewrite (top_places ft f).
+  assert (Em : forall p, In p (places f) -> members w p = cmem ft p).
+  { intros p Ip. unfold members. now rewrite (places_pfit f p Ip), Gf. }
+  apply NoDup_flat_map_disjoint; [apply places_nodup| |].
+  - intros p Ip. rewrite <- (Em p Ip). apply ND.
+  - intros p q z Ip Iq Npq Hp Hq. rewrite <- (Em p Ip) in Hp. rewrite <- (Em q Iq) in Hq.
+    apply M in Hp. apply M in Hq. congruence.
+Qed.
+Lemma top_item_place w f ft j : get_fit w f = Some ft -> In j (fit_top_items ft) ->
+  exists p, pfit p = Some f /\ In j (members w p).
+Proof.
+  intros Gf I. rewrite (top_places ft f) in I. apply in_flat_map in I as (p & Ip & Ij).
+  exists p. split; [now apply places_pfit|]. unfold members. now rewrite (places_pfit f p Ip), Gf.
+Qed.
+
+(* the whole item list: tops and their charges *)
+Lemma fit_list_nodup w f : CI w -> KJ w -> NoDup (fit_list w f).
+Proof.
+  intros C (R & K & _ & (C1 & _ & _) & _). pose proof (proj1 C) as Js. pose proof (CI_LD w C) as Ld.
+  unfold fit_list. destruct (get_fit w f) as [ft|] eqn:Gf; [|constructor].
+  unfold fit_items.
+  assert (Dtop : forall i, In i (fit_top_items ft) -> exists it, get_item w i = Some it /\ direct it).
+  { intros i I. destruct (top_item_place w f ft i Gf I) as (p & _ & Im). exact (Ld p i Im). }
+  assert (Hch : forall i it c, get_item w i = Some it -> i_charge it = Some c ->
+                exists cit, get_item w c = Some cit /\ ~ direct cit /\ i_cont cit = Some (PCharge i)).
+  { intros i it c G E. destruct (C1 i it c G E) as (cit & Gc & Ec). exists cit. split; [exact Gc|split; [|exact Ec]].
+    destruct Js as (_ & _ & _ & J5). pose proof (J5 i it c G E) as Cc. unfold cls_of in Cc. rewrite Gc in Cc.
+    injection Cc as Cc. apply direct_childcls. now right. }
+  apply NoDup_flat_map_disjoint; [now apply (top_items_nodup w f ft)| |].
+  - intros i I. destruct (Dtop i I) as (it & G & D). rewrite G. unfold child_items. rewrite app_nil_r.
+    destruct (i_charge it) as [c|] eqn:Ec; [|constructor; [intros []|constructor]].
+    constructor; [|constructor; [intros []|constructor]]. intros [E|[]]. subst c.
+    destruct (Hch i it i G Ec) as (cit & Gc & Dc & _). rewrite G in Gc. injection Gc as <-. contradiction.
+  - intros i i' z Ii Ii' Nii Hz Hz'.
+    destruct (Dtop i Ii) as (it & G & D). destruct (Dtop i' Ii') as (it' & G' & D').
+    rewrite G in Hz. rewrite G' in Hz'. unfold child_items in Hz, Hz'. rewrite app_nil_r in Hz, Hz'.
+    destruct Hz as [<-|Hz]; destruct Hz' as [<-|Hz'].
+    + contradiction.
+    + destruct (i_charge it') as [c'|] eqn:Ec'; [|destruct Hz']. destruct Hz' as [<-|[]].
+      destruct (Hch i' it' c' G' Ec') as (cit & Gc & Dc & _). rewrite G in Gc. injection Gc as <-. contradiction.
+    + destruct (i_charge it) as [c|] eqn:Ec; [|destruct Hz]. destruct Hz as [<-|[]].
+      destruct (Hch i it c G Ec) as (cit & Gc & Dc & _). rewrite G' in Gc. injection Gc as <-. contradiction.
+    + destruct (i_charge it) as [c|] eqn:Ec; [|destruct Hz]. destruct Hz as [<-|[]].
+      destruct (i_charge it') as [c'|] eqn:Ec'; [|destruct Hz']. destruct Hz' as [<-|[]].
+      destruct (Hch i it c' G Ec) as (cit & Gc & _ & E1). destruct (Hch i' it' c' G' Ec') as (cit' & Gc' & _ & E2).
+      rewrite Gc in Gc'. injection Gc' as <-. congruence.
+Qed.
+
+(* every directly held item of a fit whose solar system has no source (or which has no solar system) is unloaded *)
+Lemma fit_list_unloaded w f : CI w -> KJ w -> fit_source_id w f = None ->
+  forall j, In j (fit_list w f) -> dir_unloaded w j.
+Proof.
+  intros C (R & K & _ & _ & Ls) Hs j Ij jit G D. pose proof C as (Js & M & _).
+  unfold fit_list in Ij. destruct (get_fit w f) as [ft|] eqn:Gf; [|destruct Ij].
+  unfold fit_items in Ij. apply in_flat_map in Ij as (i & Ii & Ij).
+  destruct Ij as [<-|Ij].
+  - (* a top item: its container reference names fit f *)
+    destruct (top_item_place w f ft i Gf Ii) as (p & Hp & Im). apply M in Im. unfold fitcont in Im. rewrite G in Im.
+    destruct (i_loaded jit) as [src|] eqn:El; [|reflexivity]. exfalso.
+    destruct (Ls i jit src G D El) as (f' & Ef & Es).
+    assert (f' = f).
+    { unfold fitcont_of in Im. unfold fit_of_place in Ef. destruct (i_cont jit) as [[a b|a b|a b|y|y]|]; try discriminate;
+        injection Im as <-; cbn in Hp; congruence. }
+    subst f'. congruence.
+  - (* a charge of a top item is not directly held *)
+    exfalso. destruct (get_item w i) as [it|] eqn:Gi; [|destruct Ij]. unfold child_items in Ij. rewrite app_nil_r in Ij.
+    destruct (i_charge it) as [c|] eqn:Ec; [|destruct Ij]. destruct Ij as [<-|[]].
+    destruct Js as (_ & _ & _ & J5). pose proof (J5 i it c Gi Ec) as Cc. unfold cls_of in Cc. rewrite G in Cc.
+    injection Cc as Cc. apply (proj2 (direct_childcls jit)); [right; exact Cc|exact D].
+Qed.
+
+Lemma fit_items_same w1 w ft : w_items w1 = w_items w -> fit_items w1 ft true = fit_items w ft true.
+Proof. intros H. unfold fit_items, get_item. now rewrite H. Qed.
+Lemma fit_list_link w x l f v g :
+  fit_list (upd_fit (ss_set_fits w x l) f (fun ft => fit_set_solsys ft v)) g = fit_list w g.
+Proof.
+  set (w0 := ss_set_fits w x l).
+  assert (E0 : w_fits w0 = w_fits w /\ w_items w0 = w_items w).
+  { unfold w0, ss_set_fits. destruct (get_ss w x); [split; reflexivity|]. unfold fail. destruct (w_err w); split; reflexivity. }
+  destruct E0 as (Ef & Ei).
+  assert (G0 : forall k, get_fit w0 k = get_fit w k) by (intros k; unfold get_fit; now rewrite Ef).
+  unfold upd_fit. destruct (get_fit w0 f) as [ft|] eqn:Gf.
+  - set (w1 := put_fit w0 f (fit_set_solsys ft v)).
+    assert (Hi : w_items w1 = w_items w) by exact Ei.
+    unfold fit_list. destruct (Nat.eq_dec g f) as [->|N].
+    + assert (Hg : get_fit w1 f = Some (fit_set_solsys ft v)) by (unfold w1, get_fit, put_fit; cbn [w_fits set_fits]; apply al_get_set_same).
+      rewrite Hg. rewrite <- (G0 f), Gf. rewrite (fit_items_same w1 w _ Hi). reflexivity.
+    + assert (Hg : get_fit w1 g = get_fit w g).
+      { rewrite <- (G0 g). unfold w1, get_fit, put_fit. cbn [w_fits set_fits]. apply al_get_set_other. congruence. }
+      rewrite Hg. destruct (get_fit w g); [|reflexivity]. now apply fit_items_same.
+  - assert (Hi : w_items (fail w0 EKeyAbsent) = w_items w) by (unfold fail; destruct (w_err w0); exact Ei).
+    unfold fit_list. assert (Hg : get_fit (fail w0 EKeyAbsent) g = get_fit w g).
+    { rewrite <- (G0 g). unfold get_fit, fail. destruct (w_err w0); reflexivity. }
+    rewrite Hg. destruct (get_fit w g); [|reflexivity]. now apply fit_items_same.
+Qed.
+
 Theorem solsys_add_op_KJ s x f :
-  KJ (fst s) ->
-  (let w1 := upd_fit (ss_set_fits (fst s) x (set_add neqb (ss_fit_list (fst s) x) f)) f (fun ft => fit_set_solsys ft (Some x)) in
-   NoDup (fit_list w1 f) /\ forall j, In j (fit_list w1 f) -> dir_unloaded w1 j) ->
+  KJ (fst s) -> CI (fst s) ->
   w_err (fst (fst (solsys_add_op s x f))) = None -> KJ (fst (fst (solsys_add_op s x f))).
 Proof.
-  intros R Hyp. unfold solsys_add_op. destruct (fit_solsys (fst s) f) eqn:Efs; [auto|]. cbn [fst].
-  cbv zeta in Hyp. destruct Hyp as (Hn & Hu).
+  intros R C. unfold solsys_add_op. destruct (fit_solsys (fst s) f) eqn:Efs; [auto|]. cbn [fst].
+  assert (Hs0 : fit_source_id (fst s) f = None) by (unfold fit_source_id; now rewrite Efs).
+  assert (Hn : NoDup (fit_list (upd_fit (ss_set_fits (fst s) x (set_add neqb (ss_fit_list (fst s) x) f)) f
+                                        (fun ft => fit_set_solsys ft (Some x))) f))
+    by (rewrite fit_list_link; now apply fit_list_nodup).
+  assert (Hu : forall j, In j (fit_list (upd_fit (ss_set_fits (fst s) x (set_add neqb (ss_fit_list (fst s) x) f)) f
+                                                 (fun ft => fit_set_solsys ft (Some x))) f) ->
+                         dir_unloaded (upd_fit (ss_set_fits (fst s) x (set_add neqb (ss_fit_list (fst s) x) f)) f
+                                               (fun ft => fit_set_solsys ft (Some x))) j).
+  { intros j Ij jit G D. rewrite fit_list_link in Ij.
+    rewrite (same_is_get _ _ j (same_is_solsys_link _ _ _ _ _)) in G.
+    exact (fit_list_unloaded (fst s) f C R Hs0 j Ij jit G D). }
   set (s1 := lift s _).
   assert (R1 : KJ (fst s1)).
   { unfold s1, lift. cbn [fst]. eapply KJ_same_is_ls; [apply same_is_solsys_link| |exact R].
